@@ -78,7 +78,12 @@ def _rejections_are_skips(fn):
 # ----------------------------------------------------------------------------- single-distribution oracles
 @oracle
 @_rejections_are_skips
-def gaussian_trainer(y, saliency, covariance_type):
+def gaussian_trainer(y, saliency, covariance_type, offset=0.0):
+    """`offset`: a common shift of all observations (exactly representable, applied here): mean shifts by it, the
+    covariance must not change - the reference is computed on the unshifted data (a covariance formed as second moment
+    minus squared mean cancels once |mean| >> spread)"""
+    y0 = y
+    y = y + offset if offset else y
     m = dist.GaussianTrainer().fit(y.copy(order='K'), saliency=None if saliency is None else saliency.copy(order='K'),
                                    covariance_type=covariance_type)
     lead = y.shape[:-2]
@@ -86,8 +91,13 @@ def gaussian_trainer(y, saliency, covariance_type):
     if type(m) is not cls:
         return Fail('model-class', f'covariance_type={covariance_type} returned {type(m).__name__}')
     for idx in _lead_iter(lead):
-        mean, cov = tu.o_gauss(y[idx], _sal_at(saliency, idx), covariance_type)
+        mean, cov = tu.o_gauss(y0[idx], _sal_at(saliency, idx), covariance_type)
+        mean = mean + offset
         e1, e2 = tu.err(m.mean[idx], mean), tu.err(m.covariance[idx], cov)
+        if offset:
+            # centred two-pass estimate: the mean carries eps*|offset| absolute error, the covariance about twice that
+            # relative to a unit spread
+            e1, e2 = e1 * 1e-2, e2 * 1e-2
         if e1 > TOL:
             return Fail('gaussian-mean', f'{covariance_type} index {idx}: mean differs from sum(s y)/sum(s) by {e1:.3g}')
         if e2 > TOL:
@@ -468,6 +478,15 @@ def mixture_alternation(model, y, emb, init, saliency, iterations, opt):
         if margin < 1e-7:
             return Skip('alignment decision within rounding')
         bad = _compare_fit(model, m, lead, K, opt, w, params, spec, cacg, tol, iterations)
+        if bad is None and model == 'cacgmm' and iterations >= 2:
+            # the same alternation reached through a CONTINUED fit (initialization=<model>): n1 iterations, then n - n1 more
+            n1 = max(1, iterations // 2)
+            first = tu.call_mixture(model, y.copy(order='K'), init.copy(order='K'), sal, n1, opt, emb)
+            cont = tu.call_mixture(model, y.copy(order='K'), first, sal, iterations - n1, opt, emb)
+            badc = _compare_fit(model, cont, lead, K, opt, w, params, spec, cacg, tol, iterations)
+            if badc is not None and badc[0] != 'skip' and not tu.ill_conditioned(model, cont):
+                return Fail('continued-fit-' + badc[0], f'fit(initialization=fit(gamma0, {n1}), {iterations - n1}) is not the '
+                            f'{iterations}-fold alternation: ' + badc[1])
         if bad is None:
             return None
         if bad[0] == 'skip':
@@ -636,7 +655,13 @@ def search(ctx):
         sal, skind = tu.gen_saliency(rng, lead + (N,))
         ct = ['full', 'diagonal', 'spherical'][i % 3]
         ctx.count(f'gaussian-{ct}-sal:{skind}-lead{len(lead)}')
-        ok = ctx.run(gaussian_trainer, y=tu.gen_real(rng, lead + (N, D)), saliency=sal, covariance_type=ct)
+        yy = tu.gen_real(rng, lead + (N, D))
+        off = 0.0
+        if rng.random() < 0.3:
+            yy = np.round(yy * 1024) / 1024                       # 10 fractional bits: yy + 2^k is exact
+            off = float(rng.choice([2.0 ** 10, 2.0 ** 20, -2.0 ** 21]))
+            ctx.count('gaussian-offset:2^%d' % int(np.log2(abs(off))))
+        ok = ctx.run(gaussian_trainer, y=yy, saliency=sal, covariance_type=ct, offset=off)
         if i == 0:
             ctx.sample({'oracle': 'gaussian_trainer', 'shape': list(lead + (N, D)), 'saliency': skind, 'covariance_type': ct, 'held': ok})
         ctx.run(cgauss_trainer, y=tu.gen_complex(rng, lead + (N, D)), saliency=sal)
